@@ -22,6 +22,7 @@ structure SetPost (s s' : State) (x : Nat) (v : Int) : Prop where
   verx : (s'.get x).ver = (s.get x).ver + 1
   ver : ∀ i, i ≠ x → (s'.get i).ver = (s.get i).ver
   log : LogOK s → LogOK s'
+  logx : LogExt QuietEv s s'
 
 theorem setSignal_inv {p : Prog} {s : State} (h : InvR p s) {x : Nat} {v0 : Int}
     (hx : p[x]? = some (.sig v0)) (v : Int) {f : Nat} (hf : s.nodes.length ≤ f) :
@@ -107,8 +108,13 @@ theorem setSignal_inv {p : Prog} {s : State} (h : InvR p s) {x : Nat} {v0 : Int}
     exact hall m this (by rw [k1]; exact hk)
   have memo_ne_x : ∀ m, (s.get m).kind = .memo → m ≠ x := by
     intro m hk hmx; subst hmx; rw [hxk] at hk; cases hk
+  have logx1 : LogExt QuietEv s s1 := by
+    rw [← hs1]
+    exact ⟨[.set x], rfl, fun ev hev => by
+      rw [List.mem_singleton.1 hev]; exact ⟨by intro i; simp, by intro i; simp⟩⟩
+  have hlx : LogExt QuietEv s s' := logx1.trans hr.logx
   refine ⟨?_, ⟨hr.len.trans len1, hr.obs.trans obs1, kE, runE, valx, valE, seenE, runsE, verx, verE,
-    fun hl => hr.log (log1 hl)⟩⟩
+    fun hl => hr.log (log1 hl), hlx⟩⟩
   constructor
   · exact (hr.len.trans len1).trans h.len
   · intro i d hd; rw [kE]; exact h.kind i d hd
